@@ -31,6 +31,7 @@ import (
 	"github.com/oxia-db/oxia/common/constant"
 	"github.com/oxia-db/oxia/common/process"
 	"github.com/oxia-db/oxia/common/time"
+	"github.com/oxia-db/oxia/common/vhook"
 
 	"github.com/oxia-db/oxia/common/metric"
 	"github.com/oxia-db/oxia/proto"
@@ -307,6 +308,9 @@ func (fc *followerController) NewTerm(req *proto.NewTermRequest) (*proto.NewTerm
 		"Follower successfully initialized in new term",
 		slog.Any("last-entry", lastEntryId),
 	)
+	if vhook.Enabled {
+		vhook.At("follower.newterm.done", fc.wal, req.Term, lastEntryId.Offset)
+	}
 	return &proto.NewTermResponse{HeadEntryId: lastEntryId}, nil
 }
 
@@ -439,6 +443,9 @@ func (fc *followerController) append(req *proto.Append, stream proto.OxiaLogRepl
 
 	fc.advertisedCommitOffset.Store(req.CommitOffset)
 	fc.lastAppendedOffset = req.Entry.Offset
+	if vhook.Enabled {
+		vhook.At("follower.append.appended", fc.wal, req.Term, req.Entry.Offset)
+	}
 
 	// Trigger the sync
 	fc.syncCond.Signal()
@@ -456,6 +463,9 @@ func (fc *followerController) handleReplicateSync(stream proto.OxiaLogReplicatio
 		fc.Unlock()
 
 		oldHeadOffset := fc.wal.LastOffset()
+		if vhook.Enabled {
+			vhook.At("follower.sync.before", fc.wal, oldHeadOffset)
+		}
 
 		if err := fc.wal.Sync(stream.Context()); err != nil {
 			fc.closeStream(err)
@@ -464,6 +474,9 @@ func (fc *followerController) handleReplicateSync(stream proto.OxiaLogReplicatio
 
 		// Ack all the entries that were synced in the last round
 		newHeadOffset := fc.wal.LastOffset()
+		if vhook.Enabled {
+			vhook.At("follower.sync.after", fc.wal, oldHeadOffset, newHeadOffset)
+		}
 		for offset := oldHeadOffset + 1; offset <= newHeadOffset; offset++ {
 			if err := stream.Send(&proto.Ack{Offset: offset}); err != nil {
 				fc.closeStream(err)
